@@ -70,19 +70,21 @@ func (g *ReplicasManager) Replicas() ([]shard.Manager, error) {
 
 	ret := make([]shard.Manager, 0)
 	for _, s := range sts.Items {
+		// StatefulSets of different namespaces may have the same name
+		key := s.Namespace + "/" + s.Name
 		if s.Status.Replicas != s.Status.UpdatedReplicas {
 			g.lg.Warnf("Statefulset %s UpdatedReplicas != Replicas, skipped", s.Name)
-			g.stsUpdatedTime[s.Name] = nil
+			g.stsUpdatedTime[key] = nil
 			continue
 		}
 
-		if s.Status.ReadyReplicas != s.Status.Replicas && g.stsUpdatedTime[s.Name] == nil {
+		if s.Status.ReadyReplicas != s.Status.Replicas && g.stsUpdatedTime[key] == nil {
 			t := time.Now()
 			g.lg.Warnf("Statefulset %s is not ready, try wait 2m", s.Name)
-			g.stsUpdatedTime[s.Name] = &t
+			g.stsUpdatedTime[key] = &t
 		}
 
-		t := g.stsUpdatedTime[s.Name]
+		t := g.stsUpdatedTime[key]
 		if s.Status.ReadyReplicas != s.Status.Replicas && time.Now().Sub(*t) < time.Minute*2 {
 			g.lg.Warnf("Statefulset %s is not ready, still waiting", s.Name)
 			continue
